@@ -272,6 +272,11 @@ def clone_scripts(d, rng, pay, v):
         ops = list(base) + [{"op": "arm_clone_panic", "k": k}, {"op": "clone", "slot": 1, "place": "stack"},
                             {"op": "arm_clone_panic", "k": -1}, {"op": "dump", "slot": 1}, {"op": "drop", "slot": 1}]
         out.append(ops)
+    # the same inside a clone assignment (the target is destroyed right after the panic)
+    for k in range(1, ntr + 1):
+        ops = list(base) + [{"op": "new", "slot": 2, "v": v, "place": place(rng), "vals": vals_for(pay, fs)},
+                            {"op": "clone_from_panic", "slot": 1, "k": k}, {"op": "dump", "slot": 1}, {"op": "drop", "slot": 1}]
+        out.append(ops)
     return out
 
 
